@@ -121,7 +121,7 @@ func (C08) Gen(r *core.Rng, tier string, emit func(string)) {
 			n = lb
 		}
 		n += 3
-		for _, be := range []string{"file", "http"} {
+		for _, be := range []string{"file", "filesec", "http"} {
 			for _, cache := range []int{64, 1} {
 				emit(fmt.Sprintf("srvreal %s %d P:a:%d:size%d S:/a/1/0/0.mvt S:/a/2/3/3.mvt S:/a/metadata P:a:%d:size%d S:/a/1/0/0.mvt S:/a/2/3/3.mvt S:/a/metadata S:/a/2/1/1.mvt", be, cache, vs[0], n, vs[1], n))
 			}
@@ -208,8 +208,8 @@ func judgeVersions(res scriptResult, allowFaultFailures bool) string {
 	}
 	for _, rq := range res.reqs {
 		name := pathName(rq.path)
-		if name == "" {
-			continue
+		if name == "" || rq.cancelled {
+			continue // a request whose client went away may end any way
 		}
 		if rq.status == -1 {
 			return "request " + rq.path + " panicked: " + string(rq.body)
@@ -241,9 +241,16 @@ func judgeVersions(res scriptResult, allowFaultFailures bool) string {
 			continue
 		}
 		matched, timely := false, false
+		isTile, _, _, _, _, _ := pmtiles.VerifParseTilePath(rq.path)
 		for _, v := range hist {
 			st, body := answerOf(v.bytes, name, rq.path)
 			if st == rq.status && (st != 200 || bytes.Equal(body, rq.body)) {
+				if st == 200 && isTile && len(v.bytes) >= 127 && !rq.noHdr {
+					// the content headers belong to the same version as the bytes
+					if ce, ct := tileHeadersOf(v.bytes); ce != rq.ce || ct != rq.ct {
+						continue
+					}
+				}
 				matched = true
 				alive := v.born <= rq.end && (v.died == -1 || v.died >= rq.start)
 				if rq.status != 200 {
@@ -304,6 +311,24 @@ func (C09) Gen(r *core.Rng, tier string, emit func(string)) {
 			emit(traceLine(cache, ops))
 			emit(fmt.Sprintf("srvscript %d %s", cache, strings.Join(ops, " ")))
 		}
+		// the client that started a shared fetch goes away while others wait on it: they must still be served
+		for _, ts := range [][2]string{{"/a/1/0/0.mvt", "/a/1/1/1.mvt"}, {"/a/metadata", "/a/2/3/3.mvt"}, {"/a/1/0/0.mvt", "/a/1/0/0.mvt"}} {
+			for _, warm := range []bool{false, true} {
+				ops := []string{"P:a:1"}
+				if warm {
+					ops = append(ops, "S:/a/0/0/0.mvt", "A") // header cached: the shared fetch is a leaf directory's
+				}
+				first := len(ops) - 1
+				if warm {
+					first = 1
+				} else {
+					first = 0
+				}
+				ops = append(ops, "S:"+ts[0], "S:"+ts[1], "S:"+ts[1], fmt.Sprintf("X:%d", first), "A", "S:"+ts[0], "A")
+				emit(traceLine(cache, ops))
+				emit(fmt.Sprintf("srvscript %d %s", cache, strings.Join(ops, " ")))
+			}
+		}
 		// asked for before it is uploaded, then uploaded: the earlier miss must not be remembered
 		for _, q := range []string{"/a/0/0/0.mvt", "/a/metadata", "/a.json"} {
 			ops := []string{"S:" + q, "A", "S:" + q, "A", "P:a:1", "S:" + q, "A", "S:/a/1/0/0.mvt", "A"}
@@ -361,7 +386,7 @@ func (C09) Oracle(line, goOut string) string {
 	for _, rq := range res.reqs {
 		name := pathName(rq.path)
 		hist := res.hist[name+".pmtiles"]
-		if len(hist) == 1 && hist[0].born <= rq.start {
+		if len(hist) == 1 && hist[0].born <= rq.start && !rq.cancelled {
 			st, body := answerOf(hist[0].bytes, name, rq.path)
 			if st != rq.status || (st == 200 && !bytes.Equal(body, rq.body)) {
 				return fmt.Sprintf("response to %s is (%d, %q); an uncached lookup gives (%d, %q)", rq.path, rq.status, trunc(string(rq.body), 40), st, trunc(string(body), 40))
@@ -447,6 +472,24 @@ func (C10) Gen(r *core.Rng, tier string, emit func(string)) {
 						emit(fmt.Sprintf("srvscript %d %s", cache, strings.Join(ops, " ")))
 					}
 				}
+			}
+		}
+	}
+	// many requests coalesced on one fetch that then fails (more waiters than the loop's request channel holds):
+	// every one of them must be answered
+	for _, cache := range []int{64, 0} {
+		for _, f := range []string{"err", "e404", "short", "garbage"} {
+			for _, pos := range []int{0, 1} {
+				ops := []string{"P:a:1"}
+				if pos == 1 {
+					ops = append(ops, "S:/a/0/0/0.mvt", "A") // header cached: the failing fetch is the leaf directory's
+				}
+				for k := 0; k < 14; k++ {
+					ops = append(ops, "S:"+[]string{"/a/1/0/0.mvt", "/a/1/0/0.mvt", "/a/1/1/1.mvt"}[k%3])
+				}
+				ops = append(ops, "V:0:"+f)
+				ops = append(ops, suffix(1, []string{"/a/1/0/0.mvt", "/a/1/1/1.mvt"})...)
+				emit(fmt.Sprintf("srvscript %d %s", cache, strings.Join(ops, " ")))
 			}
 		}
 	}
